@@ -1,6 +1,7 @@
 import Spine.HeapThm
 import Spine.C04Thm
 import Spine.C04Wit
+import Spine.ExtractFilter
 /-!
 # C04 — write-protected elements stay untouched and remote writes are all-or-nothing
 
@@ -56,6 +57,28 @@ open Spine Spine.Heap
 theorem c04_family_member_as_written (sh : Shape) (remote : Bool) (ex nw : List Item) (fp fd : Option Filter) :
     updateListF .asWritten sh remote ex nw fp fd = updateList sh remote ex nw fp fd :=
   updateListF_asWritten sh remote ex nw fp fd
+
+/-! ### the glue between the datagram and `UpdateData`: which filters a write is executed with -/
+
+/-- PROVED: what `Cmd.ExtractFilter` hands to `UpdateData` as (filterPartial, filterDelete) is invariant under every
+    permutation of the command's filter list, provided the list carries at most one partial and at most one delete
+    filter (foreign entries — no or empty cmdControl — anywhere): a restricted write is executed with the same two
+    restrictions whether the partial filter stands before or after the delete filter. The harness drives both
+    orders through real write / notify / reply datagrams (`updl` of the driver runs this very function) and
+    compares verdict and data of the two arrangements on the implementation (key `filter-order-dependent`). -/
+theorem c04_filter_extraction_order_independent {α : Type} (l l' : List (FEntry α)) (h : AtMostOneEach l)
+    (hp : l.Perm l') : extractFilter l = extractFilter l' :=
+  extractFilter_perm l l' h hp
+
+/-- … and it is the partial and the delete filter of the list, wherever they stand -/
+theorem c04_filter_extraction_finds_both {α : Type} (l : List (FEntry α)) (h : AtMostOneEach l) :
+    extractFilter l = ((partials l).head?, (deletes l).head?) :=
+  extractFilter_eq l h
+
+/-- non-vacuity: partial filter first, a foreign entry in between; with two filters of a kind the code takes the last -/
+example : extractFilter [FEntry.part 1, .other, .del 2] = (some 1, some 2) ∧
+    extractFilter [FEntry.del 2, .part 1, .other] = (some 1, some 2) ∧
+    extractFilter [FEntry.part 1, .del 2, .part 3] = (some 3, some 2) := by decide
 
 /-! ### clause 1: elements whose flag is not true are untouched, no flag is altered -/
 
